@@ -158,6 +158,7 @@ type Sim struct {
 	GateFails []string
 	LastProp  *lib.Proposers
 	blockCtr  []int
+	candCache map[[2]uint64][]Cand
 	Stats     Stats
 	StopAt    int // when > 0: timers and deliveries become no-ops once Step reaches it (the scenario is "cut" here)
 	mu        sync.Mutex
@@ -658,8 +659,15 @@ func (s *Sim) sortData(root, round uint64, power uint64) *lib.SortitionData {
 		TotalValidators: s.VS.NumValidators, TotalPower: s.VS.TotalPower, VotingPower: power}
 }
 
-// Candidates runs the real sortition for every key.
+// Candidates runs the real sortition for every key (cached per view).
 func (s *Sim) Candidates(root, round uint64) (out []Cand) {
+	if s.candCache == nil {
+		s.candCache = map[[2]uint64][]Cand{}
+	}
+	if c, ok := s.candCache[[2]uint64{root, round}]; ok {
+		return c
+	}
+	defer func() { s.candCache[[2]uint64{root, round}] = out }()
 	for _, r := range s.R {
 		o, _, is := bft.Sortition(&bft.SortitionParams{SortitionData: s.sortData(root, round, s.Cfg.Power[r.Idx]), PrivateKey: r.Key})
 		if is {
